@@ -361,3 +361,5 @@ _quick("C17", "C17_outoforder", "7..9 holders of a shared key (the inline part o
 _quick("C10", "C10_wire", "a plain BinaryServerProtocol connection on a node in any non-leader state (key held or not): a LOCK / UNLOCK with any flag byte (8 symbolic bits, no value frame) through the real ProcessCommad is refused with STATE_ERROR (TIMEOUT allowed for the concurrent-check shortcut) and changes nothing", ["-witness", "5"])
 
 _quick("C08", "C08_tail", "a log of a header and 1..3 records (symbolic bytes) cut at every byte from 12 on; Aof.LoadFileMaxAofLock (the log position a restarting node continues from) does not fail on a torn last record and returns the last complete record", ["-witness", "10"], reach=["end", "empty"])
+
+_quick("C20", "C20_longwait", "a long-wait bucket queue with a scaled-down geometry (base 1, 4 node slots, first node 2 entries; the server uses 4 / 64 / 256) through 1..6 cycles of: push 3 / 7 / 13 entries, remove all but the last 0..1, the real restructuringLongTimeOutQueue or ...ExpriedQueue, pop the rest; then Reset: contents as the model's, no index outside the node table", ["-witness", "6"])
